@@ -28,6 +28,7 @@ type hmacEngine struct {
 	desc    []string
 	spawned bool
 	acq     int
+	prevKey map[string][]byte // per task: the key buffer it handed to its previous Acquire
 }
 
 func (e *hmacEngine) Stats() map[string]int { return e.stats }
@@ -162,6 +163,17 @@ func (e *hmacEngine) session(tk *verifrt.Task, sha256v bool) {
 	verifrt.Yield(hsCaller)
 	var h hash.Hash
 	given := append([]byte(nil), key...) // the slice handed to the library; it must come back unmodified
+	// a caller may keep one key buffer and overwrite it in place for the next
+	// Acquire (same length, other key): the pooled object must not remember it
+	if prev := e.prevKey[tk.Name]; len(prev) > 0 && len(prev) == len(key) && r.Pct(60, "reuse-key-buffer") {
+		copy(prev, key)
+		given = prev
+		e.stats["probe_key_buffer_reused"]++
+	}
+	if e.prevKey == nil {
+		e.prevKey = map[string][]byte{}
+	}
+	e.prevKey[tk.Name] = given
 	if sha256v {
 		h = stun.VerifAcquireSHA256(given)
 	} else {
